@@ -296,6 +296,18 @@ def run_case(case):
                         pass
                     V.append(("refused-sync-altered-files:" + trig, "%s: rc=%s but changed: %s dirs %s -> %s" %
                               (label, r.rc, ch, before["__dirs__"], after["__dirs__"]), rep))
+                # ---- an override meant for ANOTHER interlock does not open this one
+                wrong = {"file-emptied": ["-E"], "disk-missing": ["-Z"], "disk-rewritten": ["-Z"], "parity-truncated": ["-E", "-Z"],
+                         "blocksize-changed": ["-E", "-Z"], "hashsize-changed": ["-E", "-Z"], "disk-dropped-from-config": ["-Z"]}.get(trig)
+                if wrong and r.rc != 0 and before == after:
+                    rw = a.cmd("sync", *wrong, variant=variant)
+                    after_w = cp_snapshot(a)
+                    res["counters"]["wrong_override_runs"] = res["counters"].get("wrong_override_runs", 0) + 1
+                    if rw.rc == 0:
+                        V.append(("interlock-opened-by-unrelated-override:" + trig, "%s: sync %s exited 0" % (label, " ".join(wrong)), rep))
+                    elif before != after_w:
+                        ch = [os.path.basename(k) for k in before if k != "__dirs__" and before[k] != after_w.get(k)]
+                        V.append(("refused-sync-altered-files:" + trig, "%s: sync %s rc=%s but changed: %s" % (label, " ".join(wrong), rw.rc, ch), rep))
                 # ---- with the override the same sync proceeds
                 if restore_conf:
                     a.write_conf()
